@@ -23,8 +23,8 @@ Definition all_fltfmt := [F32; F64; FUnspec; FBad].
 Definition all_keyfmt := [KNone; KInformal; KCustom; KUuid; KId62; KNilType].
 Definition all_entkey := [ENone; EPrimary false; EPrimary true; EForeign; ENilType].
 Definition all_int_rules : list int_rules :=
-  map (fun x => match x with (a, b, c, d) => mkIR a b c d end)
-      (list_prod (list_prod (list_prod bools bools) obools) obools).
+  map (fun x => match x with (a, b, c, d, e) => mkIR a b c d e end)
+      (list_prod (list_prod (list_prod (list_prod bools bools) obools) obools) bools).
 Definition all_oint_rules : list (option int_rules) := None :: map Some all_int_rules.
 
 Definition all_fty : list fty :=
@@ -68,7 +68,7 @@ Lemma entkey_complete e : In e all_entkey.
 Proof. destruct e as [|[|]| |]; simpl; tauto. Qed.
 Lemma int_rules_complete r : In r all_int_rules.
 Proof.
-  destruct r as [a b c d]. unfold all_int_rules. apply in_map_iff. exists (a, b, c, d). split; [reflexivity|].
+  destruct r as [a b c d e]. unfold all_int_rules. apply in_map_iff. exists (a, b, c, d, e). split; [reflexivity|].
   repeat apply in_prod; auto using bools_complete, obools_complete.
 Qed.
 Lemma oint_rules_complete r : In r all_oint_rules.
